@@ -213,8 +213,10 @@ fn c04_o1_put_mutable_rules() {
 }
 
 //@ ob: C04.O1p
-//@ tier: thorough
-//@ cap: 2400
+//@ tier: quick
+//@ cap: 800
+//@ rss: 8.0
+//@ time: 211
 //@ standins: tracing lru vcoll
 //@ also: C03
 //@ desc: instance of C04.O1 with an item stored and a cas on the request: cas != stored seq => 301 (also when the put's seq is lower or equal), cas = stored seq and seq lower => 302, never a roll-back; all other rows of C04.O1
@@ -236,8 +238,10 @@ fn c04_o1p_put_mutable_prev_cas() {
 }
 
 //@ ob: C04.O1q
-//@ tier: thorough
-//@ cap: 2400
+//@ tier: quick
+//@ cap: 800
+//@ rss: 8.0
+//@ time: 190
 //@ standins: tracing lru vcoll
 //@ also: C03
 //@ desc: instance of C04.O1 with an item stored and no cas on the request
@@ -259,8 +263,10 @@ fn c04_o1q_put_mutable_prev_nocas() {
 }
 
 //@ ob: C04.O1r
-//@ tier: thorough
-//@ cap: 2400
+//@ tier: quick
+//@ cap: 800
+//@ rss: 6.0
+//@ time: 100
 //@ standins: tracing lru vcoll
 //@ also: C03
 //@ desc: instance of C04.O1 with nothing stored for the target (cas absent or any value: accepted when otherwise valid)
@@ -353,8 +359,10 @@ fn c04_o5_get_mutable() {
 }
 
 //@ ob: C04.O6
-//@ tier: thorough
-//@ cap: 2700
+//@ tier: quick
+//@ cap: 800
+//@ rss: 8.0
+//@ time: 374
 //@ standins: tracing lru vcoll
 //@ also: C20
 //@ desc: capacity bound: with capacity 1 and an item stored for T, a valid put for another target T' evicts T (the store never exceeds its capacity, least recently used goes); the evicted target then reads as not stored
@@ -731,7 +739,8 @@ fn c03_o7_size_boundaries() {
 fn c15_o3b_token_lifetime() {
     clock::set(0);
     let mut server = small_server(1, true); // secrets drawn at time 0
-    let fresh: [u8; 20] = kani::env();
+    // both requests may trigger a rotation (t0 > 300 s, dt > 300 s): two fresh secrets
+    let fresh: [u8; 40] = kani::env();
     rnd::preload(&fresh);
     let rt = RoutingTable::new(Id::from(ME));
     let from = SocketAddrV4::new([10, 0, 0, 7].into(), 6881);
@@ -770,7 +779,9 @@ fn c15_o3b_token_lifetime() {
 
 //@ ob: C15.O3c
 //@ tier: thorough
-//@ cap: 2700
+//@ cap: 2400
+//@ rss: 8.0
+//@ time: 620
 //@ standins: tracing lru vcoll
 //@ desc: token expiry on a node that keeps receiving requests of any kind: a token issued with a get_peers reply at t0, followed by two further requests that carry no token (pings) more than 300 s apart, is refused with 203 when presented afterwards -- the lazy rotation runs on every handled request, so the issuing secret is in neither slot after two rotation periods
 //@ bounds: symbolic secrets and fresh random bytes (assumed to differ from the issuing secret); gaps d1, d2 symbolic in 301..=1000 s, d3 symbolic <= 1000 s; 4 requests (get_peers, ping, ping, announce_peer); unwind 26
